@@ -31,6 +31,7 @@
 #include "argon2-core.h"
 #include "blake2b-long.h"
 #ifdef SODIUM_VERIF
+# include <stdio.h>
 # include "private/verif.h"
 #endif
 
@@ -216,6 +217,18 @@ argon2_fill_memory_blocks(argon2_instance_t *instance, uint32_t pass)
         for (l = 0; l < instance->lanes; ++l) {
             position.lane  = l;
             position.index = 0;
+#ifdef SODIUM_VERIF
+            if (_sodium_verif_hook != NULL) {
+                char verif_pass[24], verif_seg[24];
+
+                snprintf(verif_pass, sizeof verif_pass, "%lu",
+                         (unsigned long) position.pass);
+                snprintf(verif_seg, sizeof verif_seg, "%u:%lu",
+                         (unsigned int) position.slice,
+                         (unsigned long) position.lane);
+                SODIUM_VERIF_EVENT("argon2_segment", verif_pass, verif_seg);
+            }
+#endif
             fill_segment(instance, position);
         }
     }
